@@ -69,13 +69,13 @@ Qed.
 
 Lemma parse_shape s v : parse_go_version s = Some v ->
   trim_prefix "go" s = "" /\ v = (0, 0)
-  \/ exists a b, split_on "."%char (trim_prefix "go" s) = [a; b] /\ atoi a = Some (fst v) /\ atoi b = Some (snd v).
+  \/ exists a b, split_on "."%char (trim_prefix "go" s) = [a; b] /\ version_part a = Some (fst v) /\ version_part b = Some (snd v).
 Proof.
   unfold parse_go_version. destruct (String.eqb (trim_prefix "go" s) "") eqn:E.
   - intros H; injection H as <-. left. apply String.eqb_eq in E. auto.
   - destruct (split_on "."%char (trim_prefix "go" s)) as [|a [|b [|c l]]]; try discriminate.
-    destruct (atoi a) as [x|] eqn:Ea; [|discriminate].
-    destruct (atoi b) as [y|] eqn:Eb; [|discriminate].
+    destruct (version_part a) as [x|] eqn:Ea; [|discriminate].
+    destruct (version_part b) as [y|] eqn:Eb; [|discriminate].
     intros H; injection H as <-. right. exists a, b. auto.
 Qed.
 
@@ -113,3 +113,39 @@ Proof.
       destruct (m <=? int_max) eqn:Em; [|discriminate]. intros H; injection H as <-.
       pose proof (Hnn _ _ E). unfold int_max in *. lia.
 Qed.
+
+(* ---- accepted version parts are unsigned decimal numbers ---- *)
+Lemma digits_acc_nonneg u : forall acc m, 0 <= acc -> digits_acc u acc = Some m -> 0 <= m.
+Proof.
+  induction u as [|x u IHu]; intros acc m Hacc; cbn [digits_acc].
+  - intros H; injection H as <-; exact Hacc.
+  - destruct (digit_val x) as [d|] eqn:Ed; [|discriminate].
+    apply IHu. unfold digit_val in Ed.
+    destruct ((48 <=? Z.of_N (N_of_ascii x)) && (Z.of_N (N_of_ascii x) <=? 57)) eqn:E; [|discriminate].
+    injection Ed as <-. apply andb_true_iff in E as [E1 E2]. apply Z.leb_le in E1, E2. lia.
+Qed.
+
+Lemma version_part_range s n : version_part s = Some n -> 0 <= n <= int_max.
+Proof.
+  unfold version_part. destruct (digits s) as [m|] eqn:E; [|discriminate].
+  destruct (m <=? int_max) eqn:Em; [|discriminate]. intros H; injection H as <-.
+  split; [|apply Z.leb_le; exact Em].
+  unfold digits in E. destruct s as [|c t]; [discriminate|]. eapply digits_acc_nonneg; [|exact E]. lia.
+Qed.
+
+(* the first byte of an accepted part is a digit: no sign, no blank *)
+Lemma version_part_first_digit a r n : version_part (String a r) = Some n -> exists d, digit_val a = Some d.
+Proof.
+  unfold version_part, digits. cbn [digits_acc]. destruct (digit_val a) as [d|]; [eauto|discriminate].
+Qed.
+
+Lemma parse_nonneg s v : parse_go_version s = Some v -> 0 <= fst v /\ 0 <= snd v.
+Proof.
+  intros H. destruct (parse_shape s v H) as [[_ ->]|(a & b & _ & Ha & Hb)]; [cbn; lia|].
+  apply version_part_range in Ha, Hb. lia.
+Qed.
+
+Lemma parse_prefix_accepts_signs_refuted :
+  parse_go_version_prefix "1.-5" = Some (1, -5) /\ parse_go_version_prefix "+1.+5" = Some (1, 5)
+  /\ parse_go_version "1.-5" = None /\ parse_go_version "+1.+5" = None.
+Proof. vm_compute. auto. Qed.
